@@ -507,6 +507,8 @@ func main() {
 			doRefresh(jc.Tok, jc.D, "replay")
 		case "handler":
 			doHandler(jc.Header, jc.Path, jc.Method, "replay")
+		case "conc":
+			doConcurrent(8, 2500*time.Millisecond)
 		}
 		run.Finish()
 		return
@@ -753,6 +755,8 @@ func main() {
 			doHandler("Bearer "+p.tok, "/bytes/abc", "GET", "after-expiry")
 		}
 	}
+	// 9. concurrent stage: 8 goroutines on the one Authenticator; every answer must be the sequential one
+	doConcurrent(8, time.Duration(run.N(2500, 6000))*time.Millisecond)
 	run.Finish()
 }
 
